@@ -252,7 +252,9 @@ def h_merge(ctx, nsamples, mismatch, dup, fmt):
             ctx.assume(cols["end"][1] > cols["start"][1])
         cols["log2"] = [ctx.real(f"l{k}_{i}", -5, 5) for i in range(n)]
         logs.append(cols["log2"])
-        sid = "S0" if dup and k == nsamples - 1 and k > 0 else f"S{k}"
+        sid = f"S{k}"
+        if dup and k == nsamples - 1 and k > 0:
+            sid = "S0" if dup is True else "S1"  # dup == "later": the last two samples share an id
         tables[f"f{k}.cnr"] = make_cna(cols, {"sample_id": sid})
         fnames.append(f"f{k}.cnr")
     orig = export.read_cna
@@ -282,7 +284,7 @@ def h_merge(ctx, nsamples, mismatch, dup, fmt):
         return
     data_rows = rows[2:] if fmt == "cdt" else rows
     ctx.claim(len(data_rows) == n, "one row per bin")
-    ctx.claim(list(header[-nsamples:]) == [f"S{k}" for k in range(nsamples)], "one column per sample, in order")
+    ctx.claim(list(header[-nsamples:]) == [f"S{k}" for k in range(nsamples)] and all(len(tuple(r)) == len(header) for r in data_rows), "one column per sample, in order")
     for i, r in enumerate(data_rows[:n]):
         r = tuple(r)
         label = r[2] if fmt == "cdt" else r[1]
@@ -370,7 +372,7 @@ HARNESSES = [
     Harness(
         "merge_samples",
         h_merge,
-        [{"nsamples": ns, "mismatch": mm, "dup": dp, "fmt": fmt} for ns in (1, 2, 3) for mm in (False, True) for dp in (False, True) for fmt in ("cdt", "jtv") if not (ns == 1 and (mm or dp)) and not (mm and dp)],
+        [{"nsamples": ns, "mismatch": mm, "dup": dp, "fmt": fmt} for ns in (1, 2, 3) for mm in (False, True) for dp in (False, True, "later") for fmt in ("cdt", "jtv") if not (ns == 1 and (mm or dp)) and not (mm and dp) and not (dp == "later" and ns < 3)],
         covers=["refused", "merged"],
         wall_s=240,
     ),
